@@ -460,7 +460,7 @@ func runReplayFile(verifDir, path string) int {
 		fmt.Println("bad replay file:", err)
 		return 2
 	}
-	rr, raw, err := nativeReplay(verifDir, rf.Harness.Pkg, []replayCase{{ID: "replay", Harness: rf.Harness.Name, Vars: rf.Vars}})
+	rr, raw, err := nativeReplay(verifDir, rf.Harness.Pkg, []replayCase{{ID: "replay", Harness: rf.Harness.Name, Vars: rf.Vars, Params: rf.Harness.Params}})
 	if err != nil {
 		fmt.Println("replay failed to run:", err)
 		fmt.Println(tail(raw, 2000))
